@@ -563,6 +563,14 @@ def is_const(node, value) -> bool:
         and type(node.value) == type(value) and node.value == value)
 
 
+def kwarg_given(call, name):
+    """the keyword argument unless it is the literal None (an explicit `options=None` is no argument at all)"""
+    v = kwarg(call, name)
+    if isinstance(v, ast.Constant) and v.value is None:
+        return None
+    return v
+
+
 def names_in(node) -> set:
     return {n.id for n in ast.walk(node) if isinstance(n, ast.Name)}
 
